@@ -133,7 +133,7 @@ func runC05(r *Run) {
 	r.Returns("consensus.(*consensus).VerifyMomentumProducer", []string{"false, recv.GetMomentumProducer(a0.Timestamp)#1", "true, nil", "false, nil"}, "verdict forms")
 	r.Branch("consensus.(*consensus).VerifyMomentumProducer", "eq(a0.Producer(),recv.GetMomentumProducer(a0.Timestamp)#0)", "the compared identity is the momentum's producer (derived from its verified public key) against the elected one for its own timestamp")
 	r.Branch("consensus.(*consensus).GetMomentumProducer", "eq(a0,recv.electionManager.ElectionByTime(a0)#0.Producers[(iter+1)].StartTime)", "the producer is the plan entry whose slot starts exactly at the timestamp")
-	r.Returns("consensus.(*consensus).GetMomentumProducer", []string{"nil, recv.electionManager.ElectionByTime(a0)#1", "nil, errors.Errorf(\"couldn't find producer for timestamp\",nil)", "recv.electionManager.ElectionByTime(a0)#0.Producers[(iter+1)].Producer, nil"}, "result forms")
+	r.Returns("consensus.(*consensus).GetMomentumProducer", []string{"nil, recv.electionManager.ElectionByTime(a0)#1", "nil, errors.Errorf(…)", "recv.electionManager.ElectionByTime(a0)#0.Producers[(iter+1)].Producer, nil"}, "result forms")
 	r.Returns("chain/nom.(*Momentum).Producer", []string{"recv.producer"}, "Producer() returns the cached address")
 	r.Has("chain/nom.(*Momentum).Producer", "store recv.producer = types.PubKeyToAddress(recv.PublicKey)", "the cached producer is derived from the public key the signature was verified with")
 	r.Branch("chain/nom.(*Momentum).Producer", "eq(nil,recv.producer)", "computed when not cached")
